@@ -88,6 +88,7 @@ func c03Specs() []built {
 		spec.Spec{Name: "url-no-schemes-parseable-only", Base: "new", Calls: w(opt("RequireParseableURLs", true))},
 		spec.Spec{Name: "url-no-schemes-via-nofollow", Base: "new", Calls: w(opt("RequireNoFollowOnLinks", true))},
 		spec.Spec{Name: "url-only-scheme-pattern", Base: "new", Calls: w(opt("RequireParseableURLs", true), C{Op: "AllowURLSchemesMatching", Re: `^(ftp|tel)$`})},
+		spec.Spec{Name: "url-unanchored-scheme-pattern", Base: "new", Calls: w(opt("RequireParseableURLs", true), C{Op: "AllowURLSchemesMatching", Re: `e\.x`})},
 		spec.Spec{Name: "url-only-custom-scheme", Base: "new", Calls: w(opt("AllowRelativeURLs", true), C{Op: "AllowURLSchemeWithCustomPolicy", Names: []string{"http"}, Fn: "host-example.org"})})
 	// the shipped policy too (implies URL checking through AllowStandardURLs)
 	out = append(out, specByName("ugc"), specByName("cmd-email"))
@@ -211,7 +212,8 @@ func runC03(c *run.Ctx) {
 	var deepMain, deepRest []built
 	for i := range bs {
 		n := bs[i].S.Name
-		if strings.HasSuffix(n, "rw0") || n == "url-rel1-v0-rw1" || n == "url-rel0-v1-rw1" {
+		if strings.HasSuffix(n, "rw0") || n == "url-rel1-v0-rw1" || n == "url-rel0-v1-rw1" ||
+			strings.HasPrefix(n, "url-no-schemes") || strings.HasPrefix(n, "url-only-") || strings.HasPrefix(n, "url-unanchored-") {
 			deepMain = append(deepMain, bs[i])
 		}
 		if n == "url-rel0-v0-rw0" || n == "url-rel1-v1-rw1" || n == "url-rel1-v2-rw0" || n == "url-http-only-rw1" || n == "url-global-attrs-rw0" {
